@@ -44,6 +44,11 @@ claimed = {
          "One actor populates, loses (stale-cache fault), deletes and advances a persistent cache while others grow the log (including key revocations and approvals); each of its verifications (all modes, repeated, other refs first, from its own checkpoints) must equal the verdict class and tip of a fresh cache-less process on a fork of the same store, and may change no reference but the cache reference.",
          "Equality only (correctness of verdicts is C01); SimStore namespaces refs/local/* per simulated process.",
          "DESIGN.md §6 C08"),
+ "C02": ("exploration",
+         "deterministic simulation: honest and adversarial (forged, replayed, rolled-back, partially signed) policy successors written in seeded order around reference entries; chain conditions evaluated on ground-truth policy specs",
+         "Sequences of 2-6 policy states produced by the honest root quorum (stage+apply: root rotation, thresholds, versions, rules, delegated files) or by an adversary writing straight onto refs/gittuf/policy (forged rule file under the old root envelope, root signed by too few/only new keys, version rollback, wholesale replay, vanished or unreachable rule file, wrongly signed delegated file), with pushes placed before/between/after. Every verification mode and LoadCurrentState must fail when a state it depends on breaks a chain condition and must succeed on valid chains with authorised entries.",
+         "SimStore; successor roots not self-signed by their own role are unspecified; controller metadata not generated.",
+         "DESIGN.md §6 C02"),
 }
 
 not_applicable = {
